@@ -10,9 +10,6 @@ Import ListNotations.
 Local Open Scope nat_scope.
 
 (* ---------- runs of white-space tokens between items ---------- *)
-Definition wsish (t : token) : bool :=
-  match ttype t with T_WS | T_NL | T_COMMENT => true | _ => false end.
-
 (* WS / NL tokens and comments, every comment directly followed by its newline *)
 Fixpoint wsrun (l : list token) : bool :=
   match l with
@@ -669,12 +666,6 @@ Proof.
     + apply str_eqb_eq in Ee. subst. exfalso. apply Hnot. eapply nth_error_In; eauto.
     + eapply IH; eauto.
 Qed.
-
-(* identifiers and keywords may be map keys *)
-Definition key_text (k : str) : bool :=
-  let kt := tok_of_text k in
-  toktype_beq (ttype (as_ident kt)) T_IDENT && str_eqb (tlit (as_ident kt)) k && negb (wsish kt)
-  && negb (toktype_beq (ttype kt) T_RCURLY) && negb (toktype_beq (ttype kt) T_EOF).
 
 Lemma key_text_spec k : key_text k = true -> key_tok_ok (tok_of_text k) k.
 Proof.
